@@ -117,11 +117,11 @@ class Gen:
         return kind_of(self.L, v)
 
     def alias_of(self, v):
-        d = getattr(v, "__dict__", None)
+        d = lib.state(v)
         return d.get("alias") if isinstance(d, dict) else None
 
     def is_mutable(self, v):
-        d = getattr(v, "__dict__", None)
+        d = lib.state(v)
         return isinstance(d, dict) and d.get("immutable", True) is False
 
     def new_alias(self):
@@ -852,7 +852,7 @@ class Gen:
     ONESHOT = {"into", "update", "delete", "create_table", "drop_table", "load"}
 
     def stmt_kind(self, v):
-        d = v.__dict__
+        d = lib.state(v)
         if d.get("_insert_table") is not None:
             return "insert"
         if d.get("_update_table") is not None:
@@ -905,7 +905,7 @@ class Gen:
         return i
 
     def nfrom(self, v):
-        d = v.__dict__
+        d = lib.state(v)
         f = d.get("_from")
         return len(f) if isinstance(f, list) else 0
 
@@ -1223,9 +1223,9 @@ class Gen:
         if self.p(0.6):
             q = self.query_ref(setop_ok=False)
         if q is None:
-            d = v.__dict__
+            d = lib.state(v)
             base = v if kd == "qb" else d.get("base_query")
-            nsel = len(base.__dict__.get("_selects", [])) if base is not None else 1
+            nsel = len(lib.state(base).get("_selects", [])) if base is not None else 1
             if self.p(0.1):
                 nsel += 1
             qc = type(base).QUERY_CLS.__name__ if base is not None else None
